@@ -128,3 +128,20 @@ Proof.
   split; [vm_compute; reflexivity|]. split; [exact demo_local_facts|]. split; [vm_compute; reflexivity|].
   eexists. split; [vm_compute; reflexivity|]. vm_compute. reflexivity.
 Qed.
+
+Lemma demo_tuple_facts : sem_facts demo_tuple_sem demo_aug demo_tuple.
+Proof.
+  split.
+  - intros a Ha args v _ Hs. typed_cases Ha Hs.
+  - intros op e t Ha. cbn in Ha. destruct Ha.
+Qed.
+
+Lemma demo_tuple_ok :
+  guard_ok demo_tuple = true /\ sem_facts demo_tuple_sem demo_aug demo_tuple /\
+  pprog_exec demo_tuple_sem demo_aug 30 0 demo_tuple = Some demo_tuple_trace /\
+  exists c, transl demo_tuple = Some c /\
+            cprog_exec demo_tuple_sem demo_aug (info_of demo_tuple) 30 0 false c = Some demo_tuple_trace.
+Proof.
+  split; [vm_compute; reflexivity|]. split; [exact demo_tuple_facts|]. split; [vm_compute; reflexivity|].
+  eexists. split; [vm_compute; reflexivity|]. vm_compute. reflexivity.
+Qed.
